@@ -110,9 +110,9 @@ PAR_RULE = ("Parameter / policy lab: (8) the real RunTraceroute over the simulat
             "(12) the real runTracerouteOnce for syn/sack/prefer_sack against a loopback listener the harness owns (accept count = connections opened) with handshake segments synthesised on the simulated wire: SACK-permitted with/without timestamps, no SACK-permitted, ACKs without SACK blocks, port closed, handshake never captured, and injected filter/send/read failures.")
 PAR_TRUSTED = ["real sockets are used only for LocalAddrForHost / reserveLocalPort / the loopback dial; every packet is written to the simulated sink", "net.SplitHostPort, netip.ParseAddr, strconv.Atoi, errors.Is/As/Join are modelled only"]
 PROPS["C19"] = dict(num=19, labs=["par", "drv", "eng"], rule=PAR_RULE + " " + DRV_RULE, nontrivial="any case", trivial_classes=[],
-    signatures={"19.9": "HTTP query: a numeric port / max-ttl value was replaced by another value instead of being handed on (honoured or rejected)", "19.1": "TTL byte of an emitted probe differs from the TTL asked of the driver", "19.2": "a request with TTL bounds outside 1..255 (or min > max) was executed", "19.3": "probes on the wire do not cover exactly the requested TTL range",
+    signatures={"19.9": "HTTP query: a well-formed value (port, max-ttl, traceroute-queries, e2e-queries, timeout in ms, a boolean flag) was replaced by another value instead of being handed on (honoured or rejected)", "19.1": "TTL byte of an emitted probe differs from the TTL asked of the driver", "19.2": "a request with TTL bounds outside 1..255 (or min > max) was executed", "19.3": "probes on the wire do not cover exactly the requested TTL range",
                 "19.4": "probes went to another address", "19.5": "probes went to another port / a port outside 1..65535 was used", "19.6": "probes used another protocol", "19.7": "a valid target literal was rejected or parsed to another address/port",
-                "19.8": "a port outside 1..65535 was accepted", "19.11": "HTTP query: the endpoint the request would probe (what the handed-on hostname and port resolve to) is not the address / port the target text and port parameter state", "19.10": "a request with an unknown protocol or TCP method was executed instead of rejected", "19.9": "the process crashed", "9": "a valid scripted run returned an error", "10": "engine panicked", "3.1": "out-of-range reply produced a path",
+                "19.8": "a port outside 1..65535 was accepted", "19.12": "command line: the number of traceroute runs / end-to-end probes started, or the timeout, protocol, method, TTL bound, port or flags they were started with, differ from the flags given", "19.11": "HTTP query: the endpoint the request would probe (what the handed-on hostname and port resolve to) is not the address / port the target text and port parameter state", "19.10": "a request with an unknown protocol or TCP method was executed instead of rejected", "19.9": "the process crashed", "9": "a valid scripted run returned an error", "10": "engine panicked", "3.1": "out-of-range reply produced a path",
                 "6": "emission order / pacing violated"},
     trusted_base=PAR_TRUSTED + DRV_TRUSTED, assumptions=[])
 PROPS["C20"] = dict(num=20, labs=["par", "kern"], rule=PAR_RULE + " Kernel lab (as C13): the TCP scenarios against real Linux targets - listening with and without SACK, closed port, and a firewalled port whose SYNs are dropped so that connect() times out.", nontrivial="fallback-selector and real-run cases (class % 8 in {4, 5})", trivial_classes=[],
